@@ -1,6 +1,7 @@
 package tokenizers
 
 import (
+	"github.com/pip-services3-gox/pip-services3-expressions-gox/io"
 	"github.com/pip-services3-gox/pip-services3-expressions-gox/tokenizers"
 	"github.com/pip-services3-gox/pip-services3-expressions-gox/tokenizers/generic"
 )
@@ -9,6 +10,7 @@ type MustacheTokenizer struct {
 	*tokenizers.AbstractTokenizer
 	special      bool
 	specialState tokenizers.ITokenizerState
+	lastReader   io.IScanner
 }
 
 func NewMustacheTokenizer() *MustacheTokenizer {
@@ -56,8 +58,10 @@ func (c *MustacheTokenizer) ReadNextToken() *tokenizers.Token {
 		return nil
 	}
 
-	// Check for initial state
-	if c.NextTokenValue == nil && c.LastTokenType == tokenizers.Unknown {
+	// Check for initial state: a new reader starts in text mode. (The last token type cannot tell: it is
+	// Unknown at the start, but also after an unknown character inside a tag.)
+	if c.Scanner != c.lastReader {
+		c.lastReader = c.Scanner
 		c.special = true
 	}
 
